@@ -228,7 +228,8 @@ def Inv (orig opt : VCode) (k : Nat) (s1 s2 : Cpu) : Prop :=
   (¬ isMid orig opt k ∧ ∃ K, (factsOf orig)[k]? = some (some K) ∧ K.holds s1 ∧ Agree (fun r => dead opt r k) s1 s2)
 
 inductive Corr (extF : Nat → Cpu → Cpu) (orig opt : VCode) (k : Nat) (s1 s2 : Cpu) : Prop where
-  | halt (r : Cpu) : step extF orig k s1 = .halt r → step extF opt k s2 = .halt r → Corr extF orig opt k s1 s2
+  | halt (r1 r2 : Cpu) : step extF orig k s1 = .halt r1 → step extF opt k s2 = .halt r2 → Agree exitDead r1 r2 →
+      Corr extF orig opt k s1 s2
   | go (a b k' : Nat) (s1' s2' : Cpu) : 0 < a → 0 < b → adv extF orig a k s1 = some (k', s1') →
       adv extF opt b k s2 = some (k', s2') → Inv orig opt k' s1' s2' → Corr extF orig opt k s1 s2
   | stuck : (∀ n, run extF orig n k s1 = none) → (∀ m, run extF opt m k s2 = none) → Corr extF orig opt k s1 s2
